@@ -13,13 +13,13 @@ use gvharness::*;
 use std::collections::BTreeMap;
 use std::sync::{Arc, Mutex};
 
-static STATUS_LOG: Mutex<Vec<(Hash, BlockStatus)>> = Mutex::new(Vec::new());
+static STATUS_LOG: Mutex<Vec<(Hash, BlockStatus, u32)>> = Mutex::new(Vec::new());
 
 pub struct RecAdapter {}
 
 impl ChainAdapter for RecAdapter {
-	fn block_accepted(&self, b: &Block, status: BlockStatus, _opts: Options) {
-		STATUS_LOG.lock().unwrap().push((b.hash(), status));
+	fn block_accepted(&self, b: &Block, status: BlockStatus, opts: Options) {
+		STATUS_LOG.lock().unwrap().push((b.hash(), status, opts.bits()));
 	}
 }
 
@@ -70,9 +70,17 @@ pub fn status_str(kit: &Kit, st: &BlockStatus) -> String {
 
 /// everything the adapter was told since the last call, in order: `[b5:next:b4,b6:reorg:b5:b3:b2]`
 pub fn drain_status(kit: &Kit) -> (String, Vec<(Hash, BlockStatus)>) {
-	let evs: Vec<(Hash, BlockStatus)> = STATUS_LOG.lock().unwrap().drain(..).collect();
+	let evs: Vec<(Hash, BlockStatus)> = STATUS_LOG.lock().unwrap().drain(..).map(|(h, st, _)| (h, st)).collect();
 	let l: Vec<String> = evs.iter().map(|(h, st)| format!("{}:{}", kit.bid(h), status_str(kit, st))).collect();
 	(format!("[{}]", l.join(",")), evs)
+}
+
+/// as `drain_status`, every notification with the options the adapter was handed with it:
+/// `[b5:next:b4:o3,b6:reorg:b5:b3:b2:o1]` (bits: SKIP_POW 1, SYNC 2, MINE 4)
+pub fn drain_status_opts(kit: &Kit) -> (String, Vec<(Hash, BlockStatus)>) {
+	let evs: Vec<(Hash, BlockStatus, u32)> = STATUS_LOG.lock().unwrap().drain(..).collect();
+	let l: Vec<String> = evs.iter().map(|(h, st, o)| format!("{}:{}:o{}", kit.bid(h), status_str(kit, st), o)).collect();
+	(format!("[{}]", l.join(",")), evs.into_iter().map(|(h, st, _)| (h, st)).collect())
 }
 
 pub fn discard_status() {
@@ -394,17 +402,31 @@ pub fn report_lines(out: &mut Out, rng: &mut Rng, kit: &Kit, s: &Subject, name: 
 		}
 	}
 	out.line(&format!("chain hdrfor {}", name), &format!("[{}]", l.join(",")));
-	// (7) block_height_range_to_pmmr_indices, asked while the header head is the body head (the
-	// function reads `output_mmr_size` of headers in the header MMR)
-	if head.last_block_h == hhead.last_block_h {
-		for _ in 0..2 {
-			let a = rng.below(head.height + 1);
-			let b = a + rng.below(head.height + 1 - a);
-			let r = match chain.block_height_range_to_pmmr_indices(a, Some(b)) {
+	// (7) block_height_range_to_pmmr_indices: heights are looked up in the HEADER MMR, whether the
+	// header head is the body head, ahead of it or on another fork; `None` as the end is the height
+	// of the BODY head; heights beyond the header chain (one beyond: nothing at that position; at
+	// or beyond the MMR's size in positions: refused as a height)
+	{
+		let rel = if head.last_block_h == hhead.last_block_h { "header-head=body-head" } else { "header-head!=body-head" };
+		let mmr_size = grin_core::core::pmmr::insertion_to_pmmr_index(hhead.height + 1);
+		for k in 0..4 {
+			let a = rng.below(hhead.height + 1);
+			let (b, kind): (Option<u64>, &str) = match k {
+				0 | 1 => (Some(a + rng.below(hhead.height + 1 - a)), "inside"),
+				2 => match rng.below(3) {
+					0 => (None, "end=None"),
+					1 => (Some(hhead.height + 1 + rng.below(2)), "just-beyond"),
+					_ => (Some(mmr_size + rng.below(3)), "beyond-mmr-size"),
+				},
+				_ => (Some(a + rng.below(hhead.height + 1 - a)), "inside"),
+			};
+			let a = if k == 3 && rng.chance(1, 3) { hhead.height + 2 + rng.below(mmr_size + 2) } else { a };
+			let r = match chain.block_height_range_to_pmmr_indices(a, b) {
 				Ok((s, e)) => format!("{},{}", s, e),
 				Err(e) => format!("err:{}", error_class(&e)),
 			};
-			out.line(&format!("chain hrange {} {} {}", name, a, b), &r);
+			out.line(&format!("chain hrange {} {} {}", name, a, b.map(|x| x.to_string()).unwrap_or("-".to_string())), &r);
+			*stats.entry(format!("report:hrange:{}:{}:{}", rel, kind, if r.starts_with("err") { r.as_str() } else { "ok" })).or_insert(0) += 1;
 		}
 	}
 }
